@@ -167,6 +167,9 @@ def gen_repr(rng: random.Random, tier: str):
         grids = [small_grid(rng, d, 3, 7) for _ in range(n)]
         for gs in grids[1:]:
             gs["size"] = grids[0]["size"]
+        if n == 1 and rng.random() < 0.35:
+            # a pyramid level of an odd-sized grid: the stored size is fractional (9 -> 4.5, five samples)
+            grids = [dict(small_grid(rng, d, 7, 11), derive="downsample", derive_factor=1.0)]
         tgt = small_grid(rng, d, 3, 7)
         yield {"grids": grids, "tgt": tgt, "seed": rng.randrange(1 << 30), "steps": rng.choice([0, 2, 4]),
                "pair": [rng.choice(AX), rng.choice(AX)]}
@@ -220,6 +223,8 @@ def gen_world_affine(rng: random.Random, tier: str):
     for _ in range(_n(tier, 30, 600, 90)):
         d = rng.choice([2, 3])
         src = small_grid(rng, d, 5, 9)
+        if rng.random() < 0.3:
+            src = dict(small_grid(rng, d, 9, 13), derive="downsample", derive_factor=1.0)   # fractional stored size
         tgt = small_grid(rng, d, 3, 6)          # independent rotation and anisotropy
         yield {"src": src, "tgt": tgt, "a": rng.choice(AX), "seed": rng.randrange(1 << 30),
                "A": [[round(rng.uniform(-0.05, 0.05), 4) for _ in range(d)] for _ in range(d)],
